@@ -19,6 +19,12 @@ theories/Context.vos theories/Context.vok theories/Context.required_vos: theorie
 theories/ContextProofs.vo theories/ContextProofs.glob theories/ContextProofs.v.beautified theories/ContextProofs.required_vo: theories/ContextProofs.v theories/Base.vo theories/Context.vo
 theories/ContextProofs.vio: theories/ContextProofs.v theories/Base.vio theories/Context.vio
 theories/ContextProofs.vos theories/ContextProofs.vok theories/ContextProofs.required_vos: theories/ContextProofs.v theories/Base.vos theories/Context.vos
+theories/Formatters.vo theories/Formatters.glob theories/Formatters.v.beautified theories/Formatters.required_vo: theories/Formatters.v theories/Base.vo theories/Status.vo theories/Rollup.vo theories/Runner.vo gen/StatusTable.vo
+theories/Formatters.vio: theories/Formatters.v theories/Base.vio theories/Status.vio theories/Rollup.vio theories/Runner.vio gen/StatusTable.vio
+theories/Formatters.vos theories/Formatters.vok theories/Formatters.required_vos: theories/Formatters.v theories/Base.vos theories/Status.vos theories/Rollup.vos theories/Runner.vos gen/StatusTable.vos
+theories/FormattersProofs.vo theories/FormattersProofs.glob theories/FormattersProofs.v.beautified theories/FormattersProofs.required_vo: theories/FormattersProofs.v theories/Base.vo theories/Status.vo theories/Rollup.vo theories/Runner.vo theories/RunnerSteps.vo theories/RunnerQuiet.vo theories/Formatters.vo gen/StatusTable.vo
+theories/FormattersProofs.vio: theories/FormattersProofs.v theories/Base.vio theories/Status.vio theories/Rollup.vio theories/Runner.vio theories/RunnerSteps.vio theories/RunnerQuiet.vio theories/Formatters.vio gen/StatusTable.vio
+theories/FormattersProofs.vos theories/FormattersProofs.vok theories/FormattersProofs.required_vos: theories/FormattersProofs.v theories/Base.vos theories/Status.vos theories/Rollup.vos theories/Runner.vos theories/RunnerSteps.vos theories/RunnerQuiet.vos theories/Formatters.vos gen/StatusTable.vos
 theories/Rollup.vo theories/Rollup.glob theories/Rollup.v.beautified theories/Rollup.required_vo: theories/Rollup.v theories/Base.vo theories/Status.vo gen/StatusTable.vo
 theories/Rollup.vio: theories/Rollup.v theories/Base.vio theories/Status.vio gen/StatusTable.vio
 theories/Rollup.vos theories/Rollup.vok theories/Rollup.required_vos: theories/Rollup.v theories/Base.vos theories/Status.vos gen/StatusTable.vos
@@ -79,6 +85,9 @@ props/C13.vos props/C13.vok props/C13.required_vos: props/C13.v theories/Base.vo
 props/C14.vo props/C14.glob props/C14.v.beautified props/C14.required_vo: props/C14.v theories/Base.vo theories/Status.vo theories/Rollup.vo theories/Runner.vo theories/RunnerRange.vo theories/Summary.vo theories/SummaryProofs.vo theories/RunnerEq.vo gen/StatusTable.vo gen/SummaryTables.vo
 props/C14.vio: props/C14.v theories/Base.vio theories/Status.vio theories/Rollup.vio theories/Runner.vio theories/RunnerRange.vio theories/Summary.vio theories/SummaryProofs.vio theories/RunnerEq.vio gen/StatusTable.vio gen/SummaryTables.vio
 props/C14.vos props/C14.vok props/C14.required_vos: props/C14.v theories/Base.vos theories/Status.vos theories/Rollup.vos theories/Runner.vos theories/RunnerRange.vos theories/Summary.vos theories/SummaryProofs.vos theories/RunnerEq.vos gen/StatusTable.vos gen/SummaryTables.vos
+props/C15.vo props/C15.glob props/C15.v.beautified props/C15.required_vo: props/C15.v theories/Base.vo theories/Status.vo theories/Rollup.vo theories/Runner.vo theories/RunnerSteps.vo theories/Formatters.vo theories/FormattersProofs.vo theories/RunnerEq.vo gen/StatusTable.vo
+props/C15.vio: props/C15.v theories/Base.vio theories/Status.vio theories/Rollup.vio theories/Runner.vio theories/RunnerSteps.vio theories/Formatters.vio theories/FormattersProofs.vio theories/RunnerEq.vio gen/StatusTable.vio
+props/C15.vos props/C15.vok props/C15.required_vos: props/C15.v theories/Base.vos theories/Status.vos theories/Rollup.vos theories/Runner.vos theories/RunnerSteps.vos theories/Formatters.vos theories/FormattersProofs.vos theories/RunnerEq.vos gen/StatusTable.vos
 props/C18.vo props/C18.glob props/C18.v.beautified props/C18.required_vo: props/C18.v theories/Base.vo theories/Capture.vo theories/CaptureProofs.vo
 props/C18.vio: props/C18.v theories/Base.vio theories/Capture.vio theories/CaptureProofs.vio
 props/C18.vos props/C18.vok props/C18.required_vos: props/C18.v theories/Base.vos theories/Capture.vos theories/CaptureProofs.vos
